@@ -104,6 +104,11 @@ MsgsClause(st, R, E, i, cfg, q, n, part) ==
          ELSE "ExtraMessage"
 
 LimitGray(st) == st.between \/ st.tight \/ st.nearCount
+\* an unfinished start / field line at the end of the stream that is already longer than the smaller of the
+\* two limits: here too it matters which limit a reader applies to what it has buffered
+PendingBetween(st, n, cfg) ==
+    /\ st.phase \in {"start", "fields"} /\ cfg.maxLine # cfg.maxField
+    /\ n - st.pos + 1 > Min2(cfg.maxLine, cfg.maxField)
 
 \* The parser validates a header / trailer block when it sees the empty line that ends it.  A stream
 \* that the reference rejects inside a block and that ends before that block is complete has not
@@ -192,7 +197,7 @@ JudgeParse(st, q, n, e, cfg) ==
         ELSE res("AcceptedMalformed", <<>>, <<st.reason>>)
     ELSE \* accept / truncated
         IF rej THEN
-            IF e.excLimit /\ st.between THEN res("", <<"LimitByCallPosition">>, <<>>)
+            IF e.excLimit /\ (st.between \/ PendingBetween(st, n, cfg)) THEN res("", <<"LimitByCallPosition">>, <<>>)
             ELSE IF e.excLimit /\ st.tight THEN res("", <<>>, <<"StricterLimit">>)
             ELSE IF e.excLimit /\ st.nearCount THEN res("", <<>>, <<"StricterHeaderCount">>)
             ELSE IF Len(st.soft) > 0 THEN res("", <<>>, <<"RejectedSoft:" \o st.soft[1].name>>)
@@ -284,13 +289,16 @@ JudgeConn(st, q, n, e, cfg) ==
     ELSE \* accept / truncated
         IF nerr > 0 THEN
             IF Len(st.soft) > 0 THEN res("", <<>>, <<"RejectedSoft:" \o st.soft[1].name>>)
-            ELSE IF LimitGray(st) THEN res("", IF st.between THEN <<"LimitByCallPosition">> ELSE <<>>, <<"StricterLimit">>)
+            ELSE IF LimitGray(st) \/ PendingBetween(st, n, cfg)
+                 THEN res("", IF st.between \/ PendingBetween(st, n, cfg) THEN <<"LimitByCallPosition">> ELSE <<>>, <<"StricterLimit">>)
             ELSE IF st.phase = "closed" /\ st.tailFrom <= n THEN res("", <<>>, <<"DataAfterClose">>)
             ELSE IF st.phase = "tunnel" THEN res("", <<>>, <<"tunnel">>)
             ELSE res("ValidAnsweredWithError", <<>>, <<>>)
+        ELSE IF Len(D) < Len(R) /\ e.taskExc # "" THEN
+            res("HandlerTaskDied", <<>>, <<e.taskExc>>)       \* request accepted by the parser, never answered: the task of
+                                                               \* RequestHandler.start() ended with an exception
         ELSE IF Len(D) < Len(R) /\ ~(st.phase = "tunnel") THEN
-            IF e.taskExc # "" THEN res("HandlerTaskDied", <<>>, <<e.taskExc>>)    \* request accepted by the parser, never answered
-            ELSE IF Len(st.soft) > 0 THEN res("", <<>>, <<"SoftZone">>)
+            IF Len(st.soft) > 0 THEN res("", <<>>, <<"SoftZone">>)
             ELSE res("RequestNotDispatched", <<>>, <<>>)
         ELSE IF Len(codes) < Len(R) /\ ~(st.phase = "tunnel") THEN
             IF Len(st.soft) > 0 THEN res("", <<>>, <<"SoftZone">>) ELSE res("RequestNotAnswered", <<>>, <<>>)
@@ -336,7 +344,6 @@ GroupClause(st, q, n, evs, cfg) ==
        ELSE IF dis /\ ~diff /\ ~pre /\ PendingReject(st, q, n) THEN [bad |-> "", devs |-> <<>>]   \* noticed early vs. still pending
        ELSE IF dis /\ ~diff /\ ~pre /\ \A i \in 1..N : ~vd[i] => PendingOver(st, q, n, evs[i], cfg)
             THEN [bad |-> "", devs |-> <<>>]                                                       \* one read of slack
-       ELSE IF st.headBody THEN [bad |-> "", devs |-> <<"HeadRequestBodySkipped">>]
        ELSE IF dis /\ ((st.phase = "closed" /\ st.tailFrom <= n) \/ \E i \in 1..Len(evs) : evs[i].excAfterClose)
             THEN \* named only when the PARSER's verdict differs; on a connection nothing after the closing request is
                  \* dispatched either way
@@ -345,7 +352,7 @@ GroupClause(st, q, n, evs, cfg) ==
        ELSE IF st.rejObs THEN [bad |-> "", devs |-> <<"ErrorTextNotEncodable">>]   \* no 400 at all, so "rejected" looks like "accepted"
        ELSE IF dis /\ st.reason \in {"ChunkDataCRCRLF", "TrailerLeadingCR"} THEN [bad |-> "", devs |-> <<"LaxChunkCRSegDependent">>]
        ELSE IF \E i \in 1..Len(evs) : evs[i].pendingInput THEN [bad |-> "", devs |-> <<"StalePauseStall">>]
-       ELSE IF st.between THEN [bad |-> "", devs |-> <<"LimitByCallPosition">>]
+       ELSE IF st.between \/ PendingBetween(st, n, cfg) THEN [bad |-> "", devs |-> <<"LimitByCallPosition">>]
        ELSE IF dis /\ st.tight THEN [bad |-> "", devs |-> <<"LimitCutBeforeLF">>]
        ELSE IF dis /\ \E i \in 1..N : /\ ~vd[i] /\ evs[i].kind # "conn"
                                         /\ \E k \in 1..Len(st.soft) : st.soft[k].name = "TargetCTLAccepted"
